@@ -163,6 +163,7 @@ structure WriteJob where
   src : Nat                            -- peer k
   good : Bool                          -- hash will match
   gen : Nat                            -- generation of `t.pieces` the job points into
+  written : Bool := false              -- the storage calls have returned (successfully); the result is still to be handled
   deriving Repr, Inhabited
 
 structure St where
@@ -211,6 +212,8 @@ structure St where
   gateRead : Bool := false
   failWrite : Bool := false
   failOpen : Bool := false
+  failAt : Nat := 0                    -- which data file's `Open` fails while `failOpen` (index into the data files, in order)
+  gateWriteDone : Bool := false        -- the piece writer is held after its storage calls have returned
   -- outputs of the current op
   sto : List String := []              -- storage calls, in order
   mayStart : List Nat := []            -- peers for which startPieceDownloaderFor ran
@@ -308,23 +311,25 @@ reports at once: `handleStopped` is part of the same op unless the allocator/ver
 waited for (then the harness releases the gate, see `Op.stop`). -/
 def St.stop (s : St) (err : Bool) : St :=
   if s.status = .stopping ∨ s.status = .stopped then s else
-  let s := { s with lastErr := err, acceptor := false }
+  -- a stop caused by an error withdraws a pending verification request (fix for finding C04-F8: the restart
+  -- in `handleStopped` would fail the same way, forever)
+  let s := { s with lastErr := err, acceptor := false, doVerify := s.doVerify && !err }
   -- stopPeers, stopPiecedownloaders
   let s := s.peers.foldl (fun s p => s.closePeer p.k) s
   let s := { s with dls := [], mayStart := [], idls := [], mayStartI := false }
   let s := if s.bf.isSome then s.writeBitfield else s
   let s := s.closeData
-  -- stopAllocator: the allocator finishes opening every file, its result is dropped
+  -- stopAllocator: the allocator finishes opening its files (up to the one that fails, if any), its result is dropped
   let s :=
     if s.allocator then
-      let opened := (List.range s.cfg.flens.length).filter (fun i => !(s.cfg.fpads.getD i false))
-      if s.failOpen then
-        { s with allocator := false, gateOpen := false, sto := s.sto ++ ["openfail:" ++ fileName s.cfg (opened.headD 0)] }
-      else
+      let data := (List.range s.cfg.flens.length).filter (fun i => !(s.cfg.fpads.getD i false))
+      let failing := s.failOpen && s.failAt < data.length
+      let opened := if failing then data.take s.failAt else data
       { s with allocator := false, gateOpen := false,
                sto := s.sto ++ opened.map (fun i =>
                  s!"open:{fileName s.cfg i}:{s.cfg.flens.getD i 0}:" ++
                    (if s.fileExists.getD i false then "existed" else "new")) ++
+                 (if failing then ["openfail:" ++ fileName s.cfg (data.getD s.failAt 0)] else []) ++
                  -- the dropped result's files are closed by the allocator itself (fix for C04-F2)
                  opened.map (fun i => "close:" ++ fileName s.cfg i),
                fileExists := (List.range s.cfg.flens.length).map (fun i => s.fileExists.getD i false || opened.contains i),
@@ -406,12 +411,13 @@ def handlePieceWriteDone (m : M) (w : WriteJob) (writeErr : Bool) : M :=
     let m := closePeerM m w.src
     let m := onSt m fun s => { s with banned := if s.banned.contains ip then s.banned else s.banned ++ [ip] }
     onSt m (·.startDls)
+  -- the result of a write that was started in an earlier run of the torrent (stopped, maybe started again,
+  -- while the piece was being written): its piece object is not in use any more — ignored (fix for finding C04-F9)
+  else if w.gen ≠ m.1.gen || !m.1.loaded then m
   else if writeErr then
     onSt m (·.stop true)
   else
-    let stale := w.gen ≠ m.1.gen
-    -- pw.Piece.Done = true  (on a stale generation this touches a dead piece object)
-    let m := onSt m fun s => if stale then s else { s with done := setAt s.done w.piece true }
+    let m := onSt m fun s => { s with done := setAt s.done w.piece true }
     match m.1.bf with
     | none => onSt m (·.crash "handlePieceWriteDone: nil bitfield")
     | some b =>
@@ -680,9 +686,21 @@ def handleVerifyCommand (m : M) : M :=
 def allocatorRun (m : M) : M :=
   let s := m.1
   let data := (List.range s.cfg.flens.length).filter (fun i => !(s.cfg.fpads.getD i false))
-  if s.failOpen then
-    -- first Open fails: allocation error → stop(err)
-    let m := onSt m fun s => { s with sto := s.sto ++ ["openfail:" ++ fileName s.cfg (data.headD 0)], allocator := false }
+  if s.failOpen && s.failAt < data.length then
+    -- the `Open` of data file number `failAt` fails: the files opened before it (created, if they were missing)
+    -- are closed again by the allocator, allocation error → stop(err)
+    let opened := data.take s.failAt
+    let hasMissing := opened.any fun i => !(s.fileExists.getD i false)
+    let m := onSt m fun s =>
+      { s with sto := s.sto ++ opened.map (fun i =>
+                 s!"open:{fileName s.cfg i}:{s.cfg.flens.getD i 0}:" ++ (if s.fileExists.getD i false then "existed" else "new")) ++
+                 ["openfail:" ++ fileName s.cfg (data.getD s.failAt 0)] ++ opened.map (fun i => "close:" ++ fileName s.cfg i),
+               fileExists := (List.range s.cfg.flens.length).map (fun i => s.fileExists.getD i false || opened.contains i),
+               known := (List.range s.cfg.flens.length).map (fun i => s.known.getD i false || opened.contains i),
+               allocator := false }
+    -- files that were missing have been re-created before the error: the bitfield no longer describes the disk
+    -- and is forgotten, also in the resume db (fix for finding C05-F2)
+    let m := onSt m fun s => if hasMissing && s.bf.isSome then { s with bf := none, persisted := none } else s
     onSt m (·.stop true)
   else
     let hasExisting := data.any fun i => s.fileExists.getD i false
@@ -715,7 +733,9 @@ def writerRun (m : M) (w : WriteJob) : M :=
     else
       let lines := secs.map fun sc => s!"write:{fileName s.cfg sc.file}:{sc.off}:{sc.len}:ok"
       let m := onSt m fun s => { s with sto := s.sto ++ lines, bad := s.bad.filter (fun b => b.1 ≠ w.piece) }
-      handlePieceWriteDone m w false
+      -- the bytes are on disk; the writer goroutine may be held before it hands over its result
+      if m.1.gateWriteDone then onSt m fun s => { s with writing := some { w with written := true } }
+      else handlePieceWriteDone m w false
 
 /-- Worker completions that are not held by a gate, until quiescence. -/
 def runWorkers : Nat → M → M
@@ -728,7 +748,9 @@ def runWorkers : Nat → M → M
     else if s.verifier && !s.gateRead then runWorkers fuel (handleVerificationDone m)
     else
       match s.writing with
-      | some w => if !s.gateWrite || !w.good then runWorkers fuel (writerRun m w) else m
+      | some w =>
+        if w.written then (if !s.gateWriteDone then runWorkers fuel (handlePieceWriteDone m w false) else m)
+        else if !s.gateWrite || !w.good then runWorkers fuel (writerRun m w) else m
       | none => m
 
 /-- Extension handshake (`ExtensionHandshakeMessage` branch of handlePeerMessage). -/
